@@ -79,6 +79,7 @@ class Engine:
         self._n = 0
         self.timeout_ms = timeout_ms
         self.cur_contract = None
+        self._fresh_log = None
         self.old = None
         self.loop_ids = {}
         self.axioms = []          # global hypotheses (definitions of fresh arrays, spec-function axioms)
@@ -116,7 +117,9 @@ class Engine:
     # ------------------------------------------------------------------ utilities
     def fresh(self, name, sort):
         self._n += 1
-        return z3.Const("%s!%d" % (name, self._n), sort)
+        c = z3.Const("%s!%d" % (name, self._n), sort)
+        if self._fresh_log is not None: self._fresh_log.append(c)
+        return c
 
     def fresh_sv(self, name, ty):
         v = self.fresh(name, ty.sort)
@@ -148,6 +151,12 @@ class Engine:
         t = self.reg.field_type(cls, field)
         if t is None:
             raise Unsupported("no declared field %s.%s" % (cls, field))
+        ov = (getattr(self.cur_contract, "field_types", None) or {}).get(cls + "." + field)
+        if ov is not None:
+            # a contract may instantiate a generic container field (e.g. CustomChainMap.maps) at a more specific element
+            # type; the heap region is determined by the sort, which must be the same
+            if self.ptype(ov).sort != self.ptype(t).sort: raise Unsupported("field_types override changes the sort of %s.%s" % (cls, field))
+            t = ov
         return "f:" + field, self.ptype(t)
 
     def get_field(self, st, obj: SV, field):
@@ -748,7 +757,15 @@ class Engine:
         yield from loops.list_comp(self, n, st)
 
     def ev_Dict(self, n, st):
-        if n.keys: raise Unsupported("non-empty dict display")
+        if n.keys:
+            # {"a": self.m1, "b": self.m2}: a static dispatch table of bound methods of `self` (self is never reassigned:
+            # checked); looked up with a static key at the call  table[key](...)
+            if all(isinstance(k, ast.Constant) and isinstance(k.value, str) for k in n.keys) and \
+               all(isinstance(v, ast.Attribute) and isinstance(v.value, ast.Name) and v.value.id == "self" for v in n.values) and \
+               "self" not in self.assigned_names(self.cur_fn.body):
+                r = SV(NULL, NONE); r.py = {"__table__": {k.value: v for k, v in zip(n.keys, n.values)}}
+                yield st, r; return
+            raise Unsupported("non-empty dict display")
         from .intrinsics import decl_local_type
         dt = decl_local_type(self, n)
         r = self.alloc(st, dt, "dict"); self.put_set(st, r, z3.K(dt.k.sort, False))
@@ -1176,6 +1193,7 @@ class Engine:
         from .specev import SpecEval
         fn, seg, sha = find_function(self.repo, c.file, c.qual)
         self.cur_contract = c
+        self.cur_fn = fn
         self.base_line = fn.lineno
         self.number_loops(fn)
         self.obls = []
